@@ -366,8 +366,8 @@ func c20Check(env *core.Env, ci any) (res core.Result) {
 
 func init() {
 	core.Register(&core.Prop{
-		ID: "C20",
-		Rule: "rapid-generated TOMLData over the 7 writer sections (keys [A-Za-z0-9_-]{1,12}; strings valid UTF-8 without quote/backslash/CR/LF and not 'true'/'false', bools, full-range ints, finite float64 incl. integral/subnormal/±0/huge) written by WriteTOMLFile (with generated inline comments), parsed back and compared incl. dynamic type and float bits; then re-laid-out with comment lines, blank lines, CRLF, blanks around lines and '='; 10% of cases are arbitrary/structured byte files checked for no panic. non-trivial = >=2 sections and (a string containing '#', blank, '=' or '[' or a float); distinct = hash of the case",
+		ID:    "C20",
+		Rule:  "rapid-generated TOMLData over the 7 writer sections (keys [A-Za-z0-9_-]{1,12}; strings valid UTF-8 without quote/backslash/CR/LF and not 'true'/'false', bools, full-range ints, finite float64 incl. integral/subnormal/±0/huge) written by WriteTOMLFile (with generated inline comments), parsed back and compared incl. dynamic type and float bits; then re-laid-out with comment lines, blank lines, CRLF, blanks around lines and '='; 10% of cases are arbitrary/structured byte files checked for no panic. non-trivial = >=2 sections and (a string containing '#', blank, '=' or '[' or a float); distinct = hash of the case",
 		Gen:   c20Gen,
 		New:   func() any { return &c20Case{} },
 		Check: c20Check,
